@@ -6,7 +6,7 @@ use crate::{
     text::SourceRange,
 };
 
-use super::{LuaParser, MarkEvent, MarkerEventContainer};
+use super::{LuaParser, MarkEvent, MarkerEventContainer, lua_parser::MAX_NESTING_LEVEL};
 
 #[derive(Debug, Clone, Copy, PartialEq, Eq)]
 pub enum LuaDocParserState {
@@ -23,6 +23,7 @@ pub struct LuaDocParser<'a, 'b> {
     current_token_range: SourceRange,
     origin_token_index: usize,
     pub state: LuaDocParserState,
+    type_nesting_level: usize,
 }
 
 impl MarkerEventContainer for LuaDocParser<'_, '_> {
@@ -55,6 +56,7 @@ impl<'b> LuaDocParser<'_, 'b> {
             current_token_range: SourceRange::EMPTY,
             origin_token_index: 0,
             state: LuaDocParserState::Normal,
+            type_nesting_level: 0,
         };
 
         parser.init();
@@ -67,6 +69,24 @@ impl<'b> LuaDocParser<'_, 'b> {
             return;
         }
         self.bump();
+    }
+
+    /// Enters one level of type nesting; an error when a doc type is nested deeper than
+    /// `MAX_NESTING_LEVEL` (instead of overflowing the stack).
+    pub(crate) fn enter_type_level(&mut self) -> Result<(), LuaParseError> {
+        if self.type_nesting_level >= MAX_NESTING_LEVEL {
+            return Err(LuaParseError::doc_error_from(
+                &t!("type has too many nesting levels"),
+                self.current_token_range,
+            ));
+        }
+
+        self.type_nesting_level += 1;
+        Ok(())
+    }
+
+    pub(crate) fn leave_type_level(&mut self) {
+        self.type_nesting_level -= 1;
     }
 
     pub fn bump(&mut self) {
